@@ -88,7 +88,10 @@ pub fn run(tier: &str, seed: u64, out: &str) {
                     calls += 4;
                     if i % 3 == 0 {
                         let ptx = format!("plaintext {t} {i}");
-                        let c = PkeAc::<{ Aes256Gcm::KEY_LENGTH }, Aes256Gcm>::encrypt(&*cc, &mpk, &enc_pol, ptx.as_bytes()).unwrap();
+                        // arguments that change from call to call (the same audience written differently: `P || P || …`), while
+                        // the other threads keep calling the other entry points with the arguments they always use
+                        let var_pol = AccessPolicy::parse(&vec!["D::A && S::L"; 1 + (t * per + i) % 48].join(" || ")).unwrap();
+                        let c = PkeAc::<{ Aes256Gcm::KEY_LENGTH }, Aes256Gcm>::encrypt(&*cc, &mpk, &var_pol, ptx.as_bytes()).unwrap();
                         fresh.push(c.1[..12].to_vec());
                         let p = PkeAc::<{ Aes256Gcm::KEY_LENGTH }, Aes256Gcm>::decrypt(&*cc, &usk, &c).unwrap();
                         if p.as_deref().map(|v| v.as_slice()) != Some(ptx.as_bytes()) {
@@ -233,7 +236,7 @@ pub fn run(tier: &str, seed: u64, out: &str) {
         "soft_kind_mismatch": 0, "matrix_cells": 0, "matrix_open": 0,
         "samples": [{"threads": configs, "iterations_per_configuration": iters}],
         "mismatches": [],
-        "extra": {"rule": format!("one shared Covercrypt instance used by 2, 4, 8 and 16 threads ({iters} iterations per configuration) for encapsulation, decapsulation (authorised and unauthorised), PKE encryption / decryption, header generation / decryption, key generation, rekey, refresh, prune on thread-local key objects, while two more threads draw through the public accessor Covercrypt::rng() in very short critical sections; then fresh instances whose very first uses race each other on 8 threads released together; every result is compared with what the call returns alone (round trips, None for unauthorised); a watchdog bounds the whole run; support for the part of C19 the model cannot exhibit; distinct = API calls made (each with fresh randomness)"),
+        "extra": {"rule": format!("one shared Covercrypt instance used by 2, 4, 8 and 16 threads ({iters} iterations per configuration) for encapsulation, decapsulation (authorised and unauthorised), PKE encryption (with a policy written differently at every call) / decryption, header generation / decryption, key generation, rekey, refresh, prune on thread-local key objects, while two more threads draw through the public accessor Covercrypt::rng() in very short critical sections; then fresh instances whose very first uses race each other on 8 threads released together; every result is compared with what the call returns alone (round trips, None for unauthorised); a watchdog bounds the whole run; support for the part of C19 the model cannot exhibit; distinct = API calls made (each with fresh randomness)"),
             "exhaustive": false, "per_line": true, "oracle_failures": fails, "oracle_checked": total_calls, "campaign": "C19", "wall_s": t0.elapsed().as_secs_f64()},
     });
     std::fs::write(out, serde_json::to_string_pretty(&j).unwrap()).unwrap();
